@@ -358,7 +358,17 @@ void vfps::HDF5File::addParameterToGroup(std::string groupname,
 void vfps::HDF5File::append(const ElectricField* ef, const bool fullspectrum)
 {
     if (fullspectrum) {
-        _appendData(_csrSpectrum,ef->getCSRSpectrum());
+        /* The field holds _nBunches rows of nmax values, the dataset stores
+         * the first _maxn (non-negative frequencies) of each row. */
+        const size_t nmax = ef->getNMax();
+        std::vector<csrpower_t> spectrum;
+        spectrum.reserve(_nBunches*_maxn);
+        for (uint32_t b=0; b<_nBunches; b++) {
+            spectrum.insert(spectrum.end(),
+                            ef->getCSRSpectrum()+b*nmax,
+                            ef->getCSRSpectrum()+b*nmax+_maxn);
+        }
+        _appendData(_csrSpectrum,spectrum.data());
     }
     _appendData(_csrIntensity,ef->getCSRPower());
 }
